@@ -1730,6 +1730,28 @@ def _inplace_on_new_locals(fnode, snapshot):
         elif isinstance(n, (ast.Global, ast.Nonlocal)):
             bad.update(n.names)
     ok = {k for k, vs in binds.items() if k not in params and k not in bad and k not in (snapshot or {}) and all(_fresh_value(v) for v in vs)}
+    # ... and nobody else can hold the object when it is updated: no use of the name (an alias `y = x`, an argument, an element of a
+    # container) lies before its last in-place update, other than those updates themselves
+    def updates_of(name):
+        out = []
+        for n in ast.walk(fnode):
+            if isinstance(n, ast.AugAssign) and isinstance(n.target, ast.Name) and n.target.id == name:
+                out.append(n)
+            elif isinstance(n, ast.Expr) and isinstance(n.value, ast.Call) and any(k.arg == "out" and isinstance(k.value, ast.Name) and k.value.id == name
+                                                                                   for k in n.value.keywords):
+                out.append(n)
+        return out
+    for name in sorted(ok):
+        ups = updates_of(name)
+        if not ups:
+            ok.discard(name)
+            continue
+        last_line = max(getattr(u, "lineno", 0) for u in ups)
+        inside = {id(x) for u in ups for x in ast.walk(u)}
+        for n in ast.walk(fnode):
+            if isinstance(n, ast.Name) and n.id == name and isinstance(n.ctx, ast.Load) and id(n) not in inside and getattr(n, "lineno", 0) <= last_line:
+                ok.discard(name)
+                break
     if not ok:
         return 0
     count = 0
